@@ -37,8 +37,12 @@ EvDiff(ev) ==
      \cup (IF ev.mode = "retry" /\ ~(SeqSet(ev.keys_before) \subseteq SeqSet(ev.keys_after)) THEN {"retry_lost_aircraft"} ELSE {})
      \cup (IF ev.mode = "retry" /\ ev.reconnected = 0 THEN {"retry_no_reconnect"} ELSE {})
 
+\* composition with the renderer: the text 1090 prints for a line is the library's rendering of that frame
+TextDrift(ev) == \E k \in 1..Len(ev.texts) : ev.texts[k].got # ev.texts[k].want
+
 Judge(i) == LET ev == Rec[i]  d == EvDiff(ev) IN
-            IF d = {} THEN TRUE ELSE PrintT(<<"VERDICT", i, "feed|" \o ev.client \o "|" \o ev.tag, {<<"C16", f>> : f \in d}>>)
+            /\ (IF d = {} THEN TRUE ELSE PrintT(<<"VERDICT", i, "feed|" \o ev.client \o "|" \o ev.tag, {<<"C16", f>> : f \in d}>>))
+            /\ (IF TextDrift(ev) THEN PrintT(<<"INFO", "MODEL-DRIFT", i, "client_text">>) ELSE TRUE)
 
 Init == l = 1
 Next == l <= Len(Rec) /\ Judge(l) /\ l' = l + 1
